@@ -404,6 +404,20 @@ func (fe *FuncEnc) run(extra []*Clause) {
 		ensures = append(ensures, fe.fc.Ensures...)
 		sinks = append(sinks, fe.fc.Sinks...)
 	}
+	// what the interface method demands of its callers may be assumed by every implementation: callers through the interface
+	// are checked against it (callpre), and an implementation's own, additional preconditions must be offered by the interface
+	for _, c := range eng.ifaceClausesFor(fn) {
+		if c.Kind != "requires" {
+			continue
+		}
+		env := fr.envAt(st)
+		for k, v := range ifaceParamBinding(fe, fr, c) {
+			env.vars[k] = v
+		}
+		if f, err := env.evalBool(c.Expr); err == nil {
+			fe.assume(f)
+		}
+	}
 	for _, c := range extra {
 		if c.Kind == "ensures" {
 			ensures = append(ensures, c)
@@ -558,7 +572,14 @@ func (eng *Engine) ifaceClausesFor(fn *ssa.Function) []*Clause {
 				msig = it.Method(i).Type().(*types.Signature)
 			}
 		}
-		for _, en := range fc.Ensures {
+		var inherited []*Clause
+		inherited = append(inherited, fc.Ensures...)
+		for _, rq := range fc.Requires {
+			if !strings.HasPrefix(rq.Label, "config:") {
+				inherited = append(inherited, rq)
+			}
+		}
+		for _, en := range inherited {
 			c := *en
 			c.Label = "iface:" + parts[len(parts)-2] + "." + fn.Name() + ":" + en.Label
 			cp := &c
